@@ -209,8 +209,6 @@ def api_history(rng, allow_multi=True):
             ops.append("status:%d:%s" % (pick(rng, CODES), pick(rng, REASONS)))
         elif k < 8:
             n = pick(rng, HN)
-            if n.lower() in multi:
-                continue
             ops.append("hdr:%s:%s:%s" % (hx(n), hx(pick(rng, HV)), pick(rng, ["r", "a", "a"])))
         elif allow_multi:
             m = []
